@@ -40,6 +40,11 @@ def obligations(tier):
     for scope in (1, 2):
         obs.append(Ob(f"L2.select_tag[{{semver}}, scope {scope}]", "c09.py", "select_tag",
                       {"order": scope - 1, "legacy": True, "fix": {"scope": scope, "junk": scope == 1, "explicit_zero": False}}, timeout=t))
+    if tier == "quick":
+        # string order and numeric order differ only across a digit-length boundary (0.9 vs 0.10)
+        obs.append(Ob("L2.select_tag[list order 0, scope 0, minor classes [0, 9]/[10, 30]/[0, 9], digit-length crossing]", "c09.py",
+                      "select_tag", {"order": 0, "fix": {"scope": 0, "c0": 0, "c1": 0, "junk": False, "explicit_zero": False},
+                                     "b0": [0, 9], "b1": [10, 30], "b2": [0, 9]}, timeout=t))
     obs.append(Ob("L2.junk_tag_symbolic", "c09.py", "junk_tag_symbolic", {}, timeout=t, bounds="tag text: any str of length <= 2"))
     obs.append(Ob("L2.no_matching_tag", "c09.py", "no_matching_tag", {}, timeout=t))
     is_open = finding_open(KEY_IMPOSSIBLE)
